@@ -3,7 +3,7 @@
 use crate::lua::{binary_operator, unary_operator};
 use crate::reference::*;
 use crate::source::Source;
-use crate::{claim, note, witness};
+use crate::{claim, note, observe};
 use darklua_core::nodes::*;
 
 fn leaf(name: &'static str) -> Expression {
@@ -105,10 +105,10 @@ fn prec_left<S: Source>(s: &mut S, group: u8) {
     let emitted = binary_operator(outer).left_needs_parentheses(&left);
     let required = !left_operand_survives(shape, inner, outer);
     note!(s, "left operand {:?} of {:?}: parentheses emitted={} required={}", left, binary_operator(outer), emitted, required);
-    witness!(group != 0 || (emitted && shape == 1), "a binary left operand gets parentheses");
-    witness!(group != 0 || (!emitted && shape == 1), "a binary left operand goes without parentheses");
-    witness!(group != 1 || (emitted && shape == 2), "a unary left operand of `^` gets parentheses");
-    witness!(group < 2 || emitted, "an if-expression operand gets parentheses");
+    observe!(group != 0 || (emitted && shape == 1), "a binary left operand gets parentheses");
+    observe!(group != 0 || (!emitted && shape == 1), "a binary left operand goes without parentheses");
+    observe!(group != 1 || (emitted && shape == 2), "a unary left operand of `^` gets parentheses");
+    observe!(group < 2 || emitted, "an if-expression operand gets parentheses");
     match shape {
         1 => claim!(s, emitted || !required, "left binary operand: parentheses whenever the grammar would regroup `x INNER y OUTER z`"),
         2 | 6 => claim!(s, emitted || !required, "left operand ending in a unary expression: parentheses whenever OUTER binds tighter than unary operators"),
@@ -140,9 +140,9 @@ fn prec_right<S: Source>(s: &mut S, group: u8) {
     let emitted = binary_operator(outer).right_needs_parentheses(&right);
     let required = !right_operand_survives(shape, inner, outer);
     note!(s, "right operand {:?} of {:?}: parentheses emitted={} required={}", right, binary_operator(outer), emitted, required);
-    witness!(group != 0 || (emitted && shape == 1), "a binary right operand gets parentheses");
-    witness!(group != 0 || (!emitted && shape == 1), "a binary right operand goes without parentheses");
-    witness!(group == 0 || emitted || !emitted, "reached");
+    observe!(group != 0 || (emitted && shape == 1), "a binary right operand gets parentheses");
+    observe!(group != 0 || (!emitted && shape == 1), "a binary right operand goes without parentheses");
+    observe!(group == 0 || emitted || !emitted, "reached");
     claim!(s, emitted || !required, "right binary operand: parentheses whenever the grammar would regroup `x OUTER a INNER b`");
     core::mem::forget(right);
 }
@@ -163,7 +163,8 @@ pub fn operator_tables<S: Source>(s: &mut S) {
     s.assume(op < 16);
     let operator = binary_operator(op);
     let (left_priority, right_priority) = priority(op);
-    witness!(operator.precedes_unary_expression(), "some operator binds tighter than unary");
+    note!(s, "operator {:?}: reference priorities ({}, {})", operator, left_priority, right_priority);
+    observe!(operator.precedes_unary_expression(), "some operator binds tighter than unary");
     claim!(s, !operator.precedes_unary_expression() || left_priority > UNARY_PRIORITY,
         "an operator said to bind tighter than unary operators does (a unary operand `x OP y` is written without parentheses only then)");
     claim!(s, operator.is_right_associative() == (left_priority > right_priority), "associativity matches the reference grammar");
